@@ -84,6 +84,55 @@ V3Stream(old, vals, patch) ==
      \o StreamOfBody(hver, A32Msg(A32(stepped, selts, N, ext), 0, 0, NoBits))
      \o StreamOfBody(hver, A32Msg(A32(lf, lelts, N, ext), 0, 0, NoBits))
 
+\* ---- the loader's view of a three-section stream ---------------------------------------
+\* split a stream into its sections' bodies (each pbcmpl.Unmarshal reads one header and the
+\* body it announces); <<>> if a header or body is short
+RECURSIVE Sections(_)
+Sections(bs) ==
+  IF Len(bs) = 0 THEN <<>>
+  ELSE LET r == ReadSection(bs) IN
+       IF r.err # "" THEN <<[bad |-> TRUE, body |-> <<>>]>>
+       ELSE <<[bad |-> FALSE, body |-> r.body]>> \o Sections(SubSeq(bs, HeaderLen + Len(r.body) + 1, Len(bs)))
+
+\* message Array32 read back: [cnt, bits (member ids), words, offsets, elts, flags, bmwords (bit set)]
+ParseA32(body) ==
+  LET fs == Fields(body, 1)
+      ws == Unpack(BytesF(fs, 2), 1)
+      bf == Fields(BytesF(fs, 30), 1)
+      bw == Unpack(BytesF(bf, 20), 1) IN
+  [cnt |-> IntF(fs, 1),
+   bits |-> UNION {{64 * (w - 1) + b : b \in ws[w]} : w \in 1..Len(ws)},
+   nwords |-> Len(ws),
+   offsets |-> UnpackN(BytesF(fs, 3)), elts |-> BytesF(fs, 4), flags |-> IntF(fs, 10),
+   bmbits |-> UNION {{64 * (w - 1) + b : b \in bw[w]} : w \in 1..Len(bw)}]
+
+\* bitmap.Rank64(a.Bitmaps, a.Offsets, id): position of id among the members, computed the
+\* way the accessors do -- the stored offset of the word + the members below id in it
+EltIdx(a, id) == a.offsets[(id \div 64) + 1] + Cardinality({x \in a.bits : x \div 64 = id \div 64 /\ x < id})
+
+\* the old node with id `id` (0-based) as before000510ToNewChildrenArray reads it:
+\* bmhas on the children and leaves bitmaps, getBM16Child, getStepBefore000510, GetBytes
+OldNodeOf(ch, st, lv, id, valsize) ==
+  LET inner == id \in ch.bits
+      leaf  == id \in lv.bits
+      k     == EltIdx(ch, id)
+      bm    == IF ~inner THEN {}
+               ELSE IF ch.flags % 2 = 0            \* ArrayFlagIsBitmap clear: 4-byte elements
+               THEN BitsOfNum(ch.elts[4 * k + 1] + 256 * ch.elts[4 * k + 2], 0)
+               ELSE {b - 16 * k : b \in {x \in ch.bmbits : x \div 16 = k}}
+      step  == IF id \in st.bits THEN LET j == EltIdx(st, id) IN st.elts[2 * j + 1] + 256 * st.elts[2 * j + 2] ELSE 1
+      val   == IF leaf THEN LET j == EltIdx(lv, id) IN SubSeq(lv.elts, valsize * j + 1, valsize * (j + 1)) ELSE <<>>
+  IN [inner |-> inner, leaf |-> leaf, bm |-> bm, step |-> step, val |-> val]
+
+\* all old nodes of a stream; <<>> if the stream is not three well-formed sections
+ReadV3(bs, valsize) ==
+  LET secs == Sections(bs) IN
+  IF Len(secs) # 3 \/ \E i \in 1..3 : secs[i].bad THEN <<>>
+  ELSE LET ch == ParseA32(secs[1].body)  st == ParseA32(secs[2].body)  lv == ParseA32(secs[3].body)
+           ids == ch.bits \cup lv.bits
+           N == IF ids = {} THEN 0 ELSE Max(ids) + 1
+       IN [i \in 1..N |-> OldNodeOf(ch, st, lv, i - 1, valsize)]
+
 \* ---- 0.5.10 / 0.5.11 -----------------------------------------------------------------
 \* a negative int32 travels as the 64-bit two's complement: x in -31..-1
 NegVarint(x) == VarintBits(BitsOfNum(32 + x, 0) \cup 5..63)
